@@ -221,6 +221,32 @@ def intersection_witness(a: NFA, b: NFA, limit: int = 200000) -> Optional[str]:
     return None
 
 
+def difference_witness(a: NFA, b: NFA, limit: int = 200000) -> Optional[str]:
+    """Some string in L(a) \\ L(b), or None if L(a) is a subset of L(b) (subset construction on both sides, exhaustive)."""
+    start = (a.closure([a.start]), b.closure([b.start]))
+    seen = {start: ""}
+    todo = [start]
+    i = 0
+    while i < len(todo):
+        sa, sb = todo[i]
+        i += 1
+        w = seen[(sa, sb)]
+        if (sa & a.accept) and not (sb & b.accept):
+            return w
+        for ch in ALPHABET:
+            na = a.step(sa, ch)
+            if not na:
+                continue
+            nb = b.step(sb, ch)
+            key = (na, nb)
+            if key not in seen:
+                seen[key] = w + ch
+                todo.append(key)
+                if len(seen) > limit:
+                    raise UnsupportedRegex("product automaton too large")
+    return None
+
+
 def product_states_explored(a: NFA, b: NFA) -> int:
     start = (a.closure([a.start]), b.closure([b.start]))
     seen = {start}
